@@ -1,7 +1,7 @@
 (* C01 - proofs about (iii) errno and (iv) the arch-context pair; the stub theorems are in
    StubTheorems.v (via MachineProofs.v), the shadow-stack theorems in ShadowProofs.v. *)
 From Coq Require Import ZArith List Bool String Lia.
-Require Import UV.C01.Model UV.Gen.Stubs.
+Require Import UV.C01.Model UV.Gen.Stubs UV.C01.ArchCtxProofs.
 Import ListNotations.
 Local Open Scope Z_scope.
 
@@ -11,33 +11,6 @@ Proof. unfold with_saved_errno. now destruct (inner e). Qed.
 Lemma errno_result_is_inner {A} (inner : Z -> A * Z) (e : Z) :
   fst (with_saved_errno inner e) = fst (inner e).
 Proof. unfold with_saved_errno. now destruct (inner e). Qed.
-
-(* (iv) the generated save/restore pair gives back both halves of xmm0..xmm7, whatever ran in between
-   and whatever the context buffer held *)
-Lemma arch_context_roundtrip (x : xfile) (c0 : Z -> Z) (clobber : xfile) (r : nat) :
-  (r < 8)%nat ->
-  fst (arch_roundtrip_now x c0 clobber r) = fst (x r) /\
-  snd (arch_roundtrip_now x c0 clobber r) = snd (x r).
-Proof.
-  intro H.
-  do 8 (destruct r as [|r]; [vm_compute; split; reflexivity|]).
-  lia.
-Qed.
-
-(* the pair as it was before the fix (movsd both ways): low halves survive ... *)
-Lemma arch_context_legacy_low (x : xfile) (c0 : Z -> Z) (clobber : xfile) (r : nat) :
-  (r < 8)%nat -> fst (arch_roundtrip_legacy x c0 clobber r) = fst (x r).
-Proof.
-  intro H.
-  do 8 (destruct r as [|r]; [vm_compute; reflexivity|]).
-  lia.
-Qed.
-(* ... but the high halves are zeroed: a __m128d / __float128 argument is destroyed *)
-Lemma arch_context_legacy_refuted :
-  exists (x : xfile) c0 clobber r, (r < 8)%nat /\ snd (arch_roundtrip_legacy x c0 clobber r) <> snd (x r).
-Proof.
-  exists (fun _ => (3, 7)), (fun _ => 0), (fun _ => (0, 0)), 0%nat. split; [lia|]. vm_compute. discriminate.
-Qed.
 
 (* the run-time checker accepts what the model of the current pair produces *)
 Lemma xmm_checker_accepts_model (before clobber : list (Z * Z)) :
